@@ -1,5 +1,173 @@
-(* C11 - placeholder while the proofs are being written *)
+(* C11 — authorisation holds on every entry point and follows the rights currently saved.
+   [step] / [run] mirror the repaired code (provider/auth, service/apis.go, streamapis.go,
+   service/rtsp, service/wsp, flv, hls); [identity], [rights_now], [spec_allows], [spec_access]
+   are the reference monitor: who the caller is (valid access token / right digest / the user a
+   WebSocket upgrade verified), the rights as last saved, the documented pattern language of C16,
+   token validity as a function of the login / refresh / clock history.  [reachable w s]: s is the
+   state after any history of saves, deletes, ticks, logins, refreshes and requests.
+   Statements only; proofs are in Proofs/C11AuthZProofs.v.  No guards: the theorems hold for all
+   histories (MD5 collision freedom, unguessable tokens and ASCII are assumptions of the model). *)
 From Coq Require Import ZArith List Bool.
-From V Require Import Bytes StrGo C16PathMatch C11AuthZ.
+From V Require Import Bytes StrGo C16PathMatch C11AuthZ C11AuthZProofs.
 Import ListNotations.
-Example C11_nonvacuous : True. Proof. exact I. Qed.
+Open Scope Z_scope.
+
+(* media (its description, the upgrade that leads to it) goes only to a caller authenticated as a user whose
+   rights, as saved now, cover exactly that path for pulling — RTSP, ws-rtsp, WSP, HTTP-FLV, ws-FLV, m3u8, ts *)
+Theorem C11_media_requires_pull : forall w s ev,
+  reachable w s ->
+  let o := snd (step w s ev) in
+  is_request ev = true -> fst (target s ev) = APull ->
+  granted ev o = true -> keepalive s ev = false ->
+  exists u r, identity s ev = Some u /\ rights_now (users s) u = Some r /\
+              permits r PULL (snd (target s ev)) = true.
+Proof. exact media_requires_pull. Qed.
+Print Assumptions C11_media_requires_pull.
+
+(* a WSP data channel gets media only as the verified user of its control channel, holding the pull right *)
+Theorem C11_data_channel_requires_owner_and_pull : forall w s path t chan,
+  reachable w s ->
+  let o := snd (step w s (EWsOpen 2 path t chan)) in
+  (o_media o = true \/ o_aux o = 200) ->
+  exists u r, token_identity s t = Some u /\ u = c_user (get_conn s chan) /\
+              rights_now (users s) u = Some r /\ permits r PULL (c_path (get_conn s chan)) = true.
+Proof. exact data_channel_requires_owner_and_pull. Qed.
+Print Assumptions C11_data_channel_requires_owner_and_pull.
+
+(* a stream is published or replaced only by a RECORD of a caller whose rights, as saved now, cover it for pushing *)
+Theorem C11_publish_requires_push : forall w s ev,
+  reachable w s ->
+  let o := snd (step w s ev) in
+  (match ev with ERtsp _ _ _ _ | EWsRtsp _ _ _ => True | _ => False end) ->
+  zlist_eqb (o_reg o) (reg_view w (reg s)) = false ->
+  exists u r, identity s ev = Some u /\ rights_now (users s) u = Some r /\
+              fst (target s ev) = APush /\ permits r PUSH (snd (target s ev)) = true.
+Proof. exact publish_requires_push. Qed.
+Print Assumptions C11_publish_requires_push.
+
+Theorem C11_registry_changes_only_by_sessions : forall w s ev,
+  (match ev with ERtsp _ _ _ _ | EWsRtsp _ _ _ => False | _ => True end) ->
+  reg (fst (step w s ev)) = reg s.
+Proof. exact registry_changes_only_by_sessions. Qed.
+Print Assumptions C11_registry_changes_only_by_sessions.
+
+(* management calls succeed only for administrators; stream queries for any authenticated caller *)
+Theorem C11_api_requires_admin : forall w s ep t u b n,
+  reachable w s ->
+  ep_open ep = false ->
+  o_code (snd (step w s (EApi ep t u b n))) = 2 ->
+  exists v, token_identity s t = Some v /\
+            (ep_read ep = false -> exists push pull, rights_now (users s) v = Some (true, push, pull)).
+Proof. exact api_requires_admin. Qed.
+Print Assumptions C11_api_requires_admin.
+
+(* a caller without identity (no / invalid / expired / superseded / refresh-only token, wrong digest) is told so
+   and handed nothing (a session already playing keeps playing) *)
+Theorem C11_bad_tokens_refused : forall w s ev,
+  reachable w s -> is_request ev = true -> identity s ev = None ->
+  unauth_code ev (snd (step w s ev)) = true /\ granted ev (snd (step w s ev)) = false \/
+  keepalive s ev = true.
+Proof. exact bad_tokens_refused. Qed.
+Print Assumptions C11_bad_tokens_refused.
+
+Theorem C11_token_classes_without_identity : forall gs now,
+  spec_access gs now TNone = None /\
+  (forall b, spec_access gs now (TRaw b) = None) /\
+  (forall k, spec_access gs now (TR k) = None) /\
+  (forall k, (length gs <= k)%nat -> spec_access gs now (TA k) = None) /\
+  (forall k g, nth_error gs k = Some g -> g_t0 g + A_LIFE <= now -> spec_access gs now (TA k) = None) /\
+  (forall k g, nth_error gs k = Some g -> g_dead g = true -> spec_access gs now (TA k) = None).
+Proof. exact token_classes_without_identity. Qed.
+Print Assumptions C11_token_classes_without_identity.
+
+Theorem C11_refresh_supersedes : forall s k g,
+  tok_inv s -> nth_error (grants s) k = Some g -> g_dead g = false ->
+  forall now', spec_access (grants (fst (refresh s (TR k)))) now' (TA k) = None.
+Proof. exact refresh_supersedes. Qed.
+Print Assumptions C11_refresh_supersedes.
+
+(* the implementation's token map (two entries per issue, deleted on refresh) decides exactly the reference validity *)
+Theorem C11_access_check_is_spec : forall w s t,
+  reachable w s -> access_check s t = spec_access (grants s) (now s) t.
+Proof. intros w s t H. apply access_check_spec. eapply reachable_tok_inv; eauto. Qed.
+Print Assumptions C11_access_check_is_spec.
+
+(* callers who hold the right are not refused *)
+Theorem C11_holder_not_refused : forall w s ev,
+  reachable w s -> is_request ev = true ->
+  allowed s ev = true -> feasible w s ev = true ->
+  accepted ev (snd (step w s ev)) = true.
+Proof. exact holder_not_refused. Qed.
+Print Assumptions C11_holder_not_refused.
+
+(* the rights are those last saved: after a save exactly the saved ones, after a delete none, others untouched;
+   and decisions see the table only through Get, whatever history of saves and deletes produced it *)
+Theorem C11_rights_now_after_save : forall t u upd,
+  rights_now (save_user t u upd) (u_name u) =
+  Some (u_admin u, admin_default (u_admin u) (u_push u), admin_default (u_admin u) (u_pull u)).
+Proof. exact rights_now_after_save. Qed.
+Print Assumptions C11_rights_now_after_save.
+
+Theorem C11_rights_now_after_del : forall t name, rights_now (del_user t name) name = None.
+Proof. exact rights_now_after_del. Qed.
+Print Assumptions C11_rights_now_after_del.
+
+Theorem C11_rights_are_current : forall w s t2 ev,
+  same_table (users s) t2 ->
+  snd (step w (with_users s t2) ev) = snd (step w s ev) /\
+  same_table (users (fst (step w s ev))) (users (fst (step w (with_users s t2) ev))) /\
+  with_users (fst (step w s ev)) (users (fst (step w (with_users s t2) ev))) = fst (step w (with_users s t2) ev).
+Proof. exact rights_are_current. Qed.
+Print Assumptions C11_rights_are_current.
+
+(* the permission check of the code is the documented language on the rights as saved now (uses C16) *)
+Theorem C11_permission_check_is_spec : forall t name right path,
+  perm_go t name right path =
+  match rights_now t name with Some r => permits r right path | None => false end.
+Proof. exact perm_go_spec. Qed.
+Print Assumptions C11_permission_check_is_spec.
+
+(* what clients other than the holder are shown does not depend on the entropy the tokens are made of *)
+Theorem C11_token_not_computable : forall rnd1 rnd2 w s evs,
+  others_view (run_out rnd1 w s evs) = others_view (run_out rnd2 w s evs).
+Proof. exact token_not_computable. Qed.
+Print Assumptions C11_token_not_computable.
+
+(* the oracle applied to the implementation accepts the model on every history *)
+Theorem C11_model_passes : forall w users0 ext evs,
+  ok_run w (state0 users0 ext) evs (run w (state0 users0 ext) evs) = true.
+Proof. exact model_passes. Qed.
+Print Assumptions C11_model_passes.
+
+(* the code before the repairs *)
+Theorem C11_token_predictable_refuted : forall (h : Z -> bytes) (disclosed_id ids_between : Z),
+  predict h disclosed_id ids_between = tokens_orig h (disclosed_id + ids_between).
+Proof. exact token_predictable_refuted. Qed.
+Print Assumptions C11_token_predictable_refuted.
+
+Theorem C11_narrowed_rights_still_grant_refuted :
+  exists a1 a2 p, spec_permit false a2 p = false /\ validate_matchers (matchers_after_saves [a1; a2]) p = true.
+Proof. exact narrowed_rights_still_grant_refuted. Qed.
+Print Assumptions C11_narrowed_rights_still_grant_refuted.
+
+Theorem C11_prefix_behaviour_refuted :
+  exists evs1 evs2 evs3 evs4 evs5,
+    refutes evs1 = true /\ refutes evs2 = true /\ refutes evs3 = true /\ refutes evs4 = true /\ refutes evs5 = true.
+Proof.
+  eexists; eexists; eexists; eexists; eexists.
+  exact (conj ws_publish_without_push_refuted (conj wsp_datachannel_hijack_refuted
+        (conj wsp_rights_not_current_refuted (conj hls_segment_path_refuted stale_challenge_refuted)))).
+Qed.
+Print Assumptions C11_prefix_behaviour_refuted.
+
+(* non-vacuity: a reachable state in which bob (pull right "/a/+") is served /a/b over HTTP-FLV with his token, eve's
+   refresh token is refused as an access token, and after bob's right is narrowed to /c the same request is refused *)
+Example C11_nonvacuous :
+  map o_code (run w0 s0 nv_evs) = [200; 200; 401; 0; 403] /\
+  reachable w0 (final w0 s0 nv_evs) /\
+  allowed (fst (step w0 s0 nv_login)) (nv_get (TA 0)) = true /\
+  feasible w0 (fst (step w0 s0 nv_login)) (nv_get (TA 0)) = true.
+Proof.
+  split; [vm_compute; reflexivity|]. split; [|split; vm_compute; reflexivity].
+  unfold nv_evs. cbn [final]. repeat apply reach_step. apply reach_init.
+Qed.
